@@ -159,6 +159,7 @@ func (e *bsetEngine) TableSym(fn *ssa.Function, dom []int64, isSym func(v ssa.Va
 }
 
 type evalState struct {
+	depth int
 	e     *bsetEngine
 	fn    *ssa.Function
 	d     int64
@@ -290,6 +291,11 @@ func b2i(b bool) int64 {
 func (st *evalState) eval(v ssa.Value) (int64, bool) {
 	if st.isSym(v) {
 		return st.d, true
+	}
+	st.depth++
+	defer func() { st.depth-- }()
+	if st.depth > 200 {
+		return st.fail("value depends on a loop-carried variable")
 	}
 	switch x := v.(type) {
 	case *ssa.Const:
@@ -674,4 +680,48 @@ func addrIsLocalAlloc(v ssa.Value) bool {
 			return false
 		}
 	}
+}
+
+// reachUnderSym: for each value d of dom, the set of blocks of fn reachable from the entry when every branch
+// condition that is a function of the symbol alone is decided for sym=d and every other branch may go either way.
+func (e *bsetEngine) reachUnderSym(fn *ssa.Function, isSym func(ssa.Value) bool, dom []int64) map[*ssa.BasicBlock]map[int64]bool {
+	out := map[*ssa.BasicBlock]map[int64]bool{}
+	for _, d := range dom {
+		st := &evalState{e: e, fn: fn, isSym: isSym, d: d, from: make([]int, len(fn.Blocks))}
+		for i := range st.from {
+			st.from[i] = -2
+		}
+		seen := map[*ssa.BasicBlock]bool{}
+		var dfs func(b *ssa.BasicBlock)
+		dfs = func(b *ssa.BasicBlock) {
+			if seen[b] {
+				return
+			}
+			seen[b] = true
+			if out[b] == nil {
+				out[b] = map[int64]bool{}
+			}
+			out[b][d] = true
+			succs := b.Succs
+			if iff := blockIf(b); iff != nil {
+				st.why = ""
+				if v, ok := st.eval(iff.Cond); ok {
+					if v != 0 {
+						succs = b.Succs[:1]
+					} else {
+						succs = b.Succs[1:]
+					}
+				}
+			}
+			for _, s := range succs {
+				prev := st.from[s.Index]
+				st.from[s.Index] = b.Index
+				dfs(s)
+				_ = prev
+			}
+		}
+		st.from[0] = -1
+		dfs(fn.Blocks[0])
+	}
+	return out
 }
